@@ -6,10 +6,32 @@ import (
 	"fmt"
 	"os"
 	"runtime/debug"
+	"strings"
 
 	"verifharness/eng"
 	"verifharness/props"
 )
+
+// libraryPanic reports whether the frame that raised the panic (the first frame after the
+// runtime's panic machinery) is library code.
+func libraryPanic(stack string) bool {
+	lines := strings.Split(stack, "\n")
+	seenPanic := false
+	for _, l := range lines {
+		if strings.HasPrefix(l, "\t") || l == "" {
+			continue
+		}
+		if strings.HasPrefix(l, "panic(") {
+			seenPanic = true
+			continue
+		}
+		if !seenPanic || strings.HasPrefix(l, "runtime.") || strings.HasPrefix(l, "runtime/") {
+			continue
+		}
+		return strings.HasPrefix(l, "github.com/willabides/rjson.") || strings.HasPrefix(l, "github.com/willabides/rjson/internal/")
+	}
+	return false
+}
 
 func main() {
 	id := flag.String("id", "", "property id")
@@ -35,6 +57,24 @@ func main() {
 	}
 	r := eng.NewRun(*id, *tier, *seed, *out, *replays, *known)
 	r.RepoHead = *head
+	// A panic that escapes a driver: if it was raised inside the library (the innermost non-runtime
+	// frame belongs to github.com/willabides/rjson) the library panicked on an input the check fed
+	// it - a violation of every property (each demands a result). Anything else is a fault of this
+	// harness and is not turned into an alarm.
+	defer func() {
+		if p := recover(); p != nil {
+			stack := string(debug.Stack())
+			fmt.Fprintf(os.Stderr, "harness: panic: %v\n%s\n", p, stack)
+			if libraryPanic(stack) {
+				if len(stack) > 3000 {
+					stack = stack[:3000]
+				}
+				r.Violation(eng.Replay{Engine: "crash", Entry: "(see stack)", Sig: fmt.Sprintf("library-panic/%v", p), InputB64: append([]byte(nil), eng.LastBeat()...), Expected: "returns normally", Got: fmt.Sprintf("panic: %v\n%s", p, stack)})
+				os.Exit(r.Finish())
+			}
+			os.Exit(2)
+		}
+	}()
 	drv(r)
 	os.Exit(r.Finish())
 }
